@@ -3,6 +3,8 @@
 package fzf
 
 import (
+	"io"
+
 	"github.com/junegunn/fzf/src/algo"
 	"github.com/junegunn/fzf/src/util"
 )
@@ -268,4 +270,18 @@ func (p *Pattern) VerifMatchItem(item *Item, withPos bool, slab *util.Slab) (boo
 		return true, offs, res.points, nil, false
 	}
 	return true, offs, res.points, *pos, true
+}
+
+// --- reader.go ---
+
+// VerifReaderFeed runs Reader.feed over src and returns the pushed records as they are when feed
+// returns (views into the reader's slabs, not copies) together with copies taken at push time.
+func VerifReaderFeed(src io.Reader, delimNil bool) (views [][]byte, copies [][]byte) {
+	r := NewReader(func(data []byte) bool {
+		views = append(views, data)
+		copies = append(copies, append([]byte{}, data...))
+		return true
+	}, util.NewEventBox(), nil, delimNil, false)
+	r.feed(src)
+	return
 }
